@@ -225,24 +225,18 @@ class Check:
                 self.failed_obligations.append(("lake-build", e.strip()))
         return self.lean_ok
 
-    def audit(self, extra_names=()):
+    def audit(self, extra_names=(), roots=None):
         """no sorry/admit/axiom/native_decide/... anywhere in the Lean tree (comments stripped), and
         `#print axioms` of every property theorem shows only the three standard axioms."""
         ok = True
-        for d, _, files in os.walk(LEAN):
-            if ".lake" in d:
-                continue
-            for f in files:
-                if not f.endswith(".lean"):
-                    continue
-                p = os.path.join(d, f)
-                src = strip_lean_comments(open(p).read())
-                # string literals may legitimately contain the words (e.g. in messages): drop them
-                src = re.sub(r'"(?:[^"\\]|\\.)*"', '""', src)
-                m = FORBIDDEN.search(src)
-                if m:
-                    ok = False
-                    self.failed_obligations.append(("audit-grep", "%s: forbidden token %r" % (os.path.relpath(p, LEAN), m.group(0).strip())))
+        for p in self.import_closure(roots):
+            src = strip_lean_comments(open(p).read())
+            # string literals may legitimately contain the words (e.g. in messages): drop them
+            src = re.sub(r'"(?:[^"\\]|\\.)*"', '""', src)
+            m = FORBIDDEN.search(src)
+            if m:
+                ok = False
+                self.failed_obligations.append(("audit-grep", "%s: forbidden token %r" % (os.path.relpath(p, LEAN), m.group(0).strip())))
         names = list(self.obligations) + list(extra_names)
         if self.lean_ok and names:
             os.makedirs(os.path.join(LEAN, "Audit"), exist_ok=True)
@@ -275,6 +269,19 @@ class Check:
         self.audit_ok = ok and bool(self.lean_ok)
         self.log("audit: %s (%d theorems, axioms %s)" % ("ok" if self.audit_ok else "FAILED", len(names), sorted(self.axioms_seen)))
         return self.audit_ok
+
+    def import_closure(self, roots=None):
+        """files of this project (OmplModel.*, Drv.*) transitively imported by Props/<prop>.lean (+roots)."""
+        todo = [self.props_file()] + [os.path.join(LEAN, *r.split(".")) + ".lean" for r in (roots or [])]
+        seen = []
+        while todo:
+            p = todo.pop()
+            if p in seen or not os.path.isfile(p):
+                continue
+            seen.append(p)
+            for m in re.finditer(r"^\s*(?:public\s+)?import\s+((?:OmplModel|Drv)\.[\w.]+)", open(p).read(), re.M):
+                todo.append(os.path.join(LEAN, *m.group(1).split(".")) + ".lean")
+        return seen
 
     def leanchecker(self, modules):
         """independent re-check of compiled .olean files (thorough tier)."""
